@@ -87,12 +87,23 @@ def header_list(report, label):
     return None if m is None else m.group(1).split(', ')
 
 
+SEQ = [0, 0]
+
+
 def check_assignment(ctx, rule, name, fv, cv, base=None, cli=False, as_object=False):
     "fv / cv: value in the file layer / caller layer or None; base: extra caller options (the arithmetic under which the name is exercised)"
     file_tokens = [as_file_token(name, fv)] if fv is not None else []
     text = PROFILE % ('[droop %s]' % ' '.join(file_tokens) if file_tokens else '')
     caller = dict(rule=rule)
-    caller.update(base or {})
+    SEQ[0] += 1
+    file_base = bool(base) and fv is not None and name not in base and SEQ[0] % 3 == 0
+    if file_base:
+        # the same assignment with the accompanying options written in the ballot file too, as a [droop ...] item of their own
+        # ahead of the one under test (a file may carry any number of such items; together they are the file layer)
+        text = PROFILE % ('[droop %s] [droop %s]' % (' '.join(as_file_token(k, v) for k, v in base.items()), ' '.join(file_tokens)))
+        ctx.count('assignments_with_two_droop_items')
+    else:
+        caller.update(base or {})
     if cv is not None:
         caller[name] = cv
     if as_object:
@@ -108,7 +119,15 @@ def check_assignment(ctx, rule, name, fv, cv, base=None, cli=False, as_object=Fa
     if as_object:
         # the caller may hand over an Options object instead of a dict (Election accepts both)
         from droop.options import Options
-        run = do_count(text, None, budget=5.0, render=True, options_object=Options(dict(caller)))
+        SEQ[1] += 1
+        if SEQ[1] % 2:
+            oo = Options(dict(caller))
+        else:
+            oo = Options()              # built up piecemeal, as a long-lived caller would
+            for k, v in caller.items():
+                oo.update(k, v)
+            ctx.count('options_objects_built_incrementally')
+        run = do_count(text, None, budget=5.0, render=True, options_object=oo)
     else:
         run = do_count(text, dict(caller), budget=5.0, render=True)
     if run.error is not None:
@@ -150,6 +169,8 @@ def check_assignment(ctx, rule, name, fv, cv, base=None, cli=False, as_object=Fa
         return
     want_cmd = {k: (int(v) if isinstance(v, str) and v.isdigit() else v) for k, v in caller.items()}
     want_file = {name: fv} if fv is not None else {}
+    if file_base:
+        want_file.update({k: (int(v) if isinstance(v, str) and v.isdigit() else v) for k, v in base.items()})
     if rec['cmd'] != want_cmd:
         ctx.violation('precedence:record-cmd-layer', 'record cmd layer %r, supplied %r' % (rec['cmd'], want_cmd), case)
     if rec['file_options'] != want_file:
